@@ -308,6 +308,9 @@ def spec_ml_m_step(ctx, machine, statistics, update_means=True, update_variances
     return None
 
 
+KNOWN_DEFECT = {"map_var_prior_mean_not_squared": False}
+
+
 def spec_map_m_step(ctx, machine, statistics, update_means=True, update_variances=False, update_weights=False,
                     reynolds_adaptation=True, relevance_factor=4, alpha=0.5, mean_var_update_threshold=EPS):
     """property-level contract (C05): relevance blend of prior and data"""
@@ -336,6 +339,9 @@ def spec_map_m_step(ctx, machine, statistics, update_means=True, update_variance
         mu = need(machine, "_means")
         ex2 = S / n[:, None]
         prior2 = v0 + mu0 * mu0
+        if KNOWN_DEFECT["map_var_prior_mean_not_squared"]:
+            # exact description of known finding KF-MAP-VAR (used only to *identify* that defect)
+            prior2 = v0 + mu0
         new = a[:, None] * ex2 + (1 - a[:, None]) * prior2 - mu * mu
         prior_only = prior2 - mu * mu
         spec_set_variances(ctx, machine, A.ewise(lambda c_, p_, q_: T.mk_ite(c_, P(p_), P(q_)), noev[:, None], prior_only, new))
